@@ -443,9 +443,9 @@ pub (crate) fn bid128_from_string(str: &str, rnd_mode: RoundingMode, pfpsf: &mut
             ps += 1;
             c   = str.chars().nth(ps);
 
-            if c.is_some() && !char::is_digit(c.unwrap(), 10)
+            if c.is_none() || (!char::is_digit(c.unwrap(), 10)
             && ((c != Some('+') && c != Some('-'))
-             || !char::is_digit(str.chars().nth(ps + 1).unwrap(), 10)) {
+             || !str.chars().nth(ps + 1).is_some_and(|d| char::is_digit(d, 10)))) {
                 // return NaN
                 res.w[1] = 0x7c00000000000000u64;
                 res.w[0] = 0;
